@@ -163,6 +163,8 @@ def random_program(rng, nfns=3, ncls=2, max_calls=2, p_false=0.15, plain_sub=Fal
             if n and rng.random() < 0.6:
                 caps[str(f)] = rng.randint(1, n)
     case["captures"] = caps
+    # some functions are coroutine functions (their conditions stay plain functions)
+    case["asyncFns"] = dict((str(f), True) for f in range(nf) if rng.random() < 0.3)
     if any(modes[c] == "plain" and bases[c] is not None for c in range(nc)):
         # what the library can actually see: a plain subclass of a decorated class is created behind its back
         import copy
